@@ -711,6 +711,13 @@ func runC16(a *Args) error {
 		if !w.Want(my) {
 			return
 		}
+		seenName := map[string]bool{}
+		for _, f := range files {
+			if seenName[f.name] {
+				return // the same file name twice: not a directory
+			}
+			seenName[f.name] = true
+		}
 		wd := worlds[d]
 		wname, rname := fmt.Sprintf("W%d", d), fmt.Sprintf("R%d_%d", d, v)
 		mgr, rr := mgrFor(wd, v)
